@@ -1230,6 +1230,10 @@ func (fr *Frame) callsiteChecks(cc *ssa.CallCommon, args []Val, st *State, reach
 		recvArg = &rv
 	} else if f := cc.StaticCallee(); f != nil {
 		name = f.Name()
+		if o := f.Origin(); o != nil {
+			// an instance of a generic function goes by the generic function's name
+			name = o.Name()
+		}
 		sig = f.Signature
 		if sig.Recv() != nil && len(args) > 0 {
 			recvArg = &args[0]
